@@ -134,7 +134,7 @@ def _run_variants(ctx):
     par = os.path.join(REPO, "examples", "parameter")
     files = F.classic_files(par)
     out = []
-    for k in range(100 if ctx.thorough else 12):
+    for k in range(150 if ctx.thorough else 12):
         fn, abbr, var = rnd.choice(files)
         ls = mutate_gentle(rnd, F.read_lines(os.path.join(par, fn)))
         out.append(("%s~g%d" % (fn, k), fn, b"\n".join(ls) + b"\n"))
@@ -149,7 +149,7 @@ def _variants(ctx, env_conv=None):
     par = os.path.join(REPO, "examples", "parameter")
     files = F.classic_files(par)
     out = []
-    for k in range(400 if ctx.thorough else 60):
+    for k in range(600 if ctx.thorough else 60):
         fn, abbr, var = rnd.choice(files)
         ls = mutate_classic(rnd, F.read_lines(os.path.join(par, fn)))
         out.append(("%s~%d" % (fn, k), fn, abbr, b"\n".join(ls) + b"\n"))
@@ -165,8 +165,8 @@ def correspond(ctx):
     os.makedirs(wd, exist_ok=True)
     jobs, plan = [], []
 
-    def job(kind, file, prior=0, cont=False):
-        jobs.append({"id": len(jobs), "kind": kind, "file": file, "prior": prior, "cont": cont, "cropfile": "", "args": None})
+    def job(kind, file, prior=0, cont=False, mode=0):
+        jobs.append({"id": len(jobs), "kind": kind, "file": file, "prior": prior, "cont": cont, "mode": mode, "cropfile": "", "args": None})
         return len(jobs) - 1
 
     for fn, abbr, var in F.classic_files(par):
@@ -178,6 +178,10 @@ def correspond(ctx):
         rid = job("record", p + ".yml")
         for prior, cont in ((0, False), (1, True)):
             plan.append(("yaml", fn + ".yml", None, prior, cont, job("yaml", p + ".yml", prior, cont), rid))
+        # rotation position 2 after the same crop / position 3 after another crop: the stand does NOT continue
+        for mode in (2, 3):
+            plan.append(("classic", fn + " rotation-mode %d" % mode, data, 1, False, job("classic", p, 1, False, mode), None))
+            plan.append(("yaml", fn + ".yml rotation-mode %d" % mode, None, 1, False, job("yaml", p + ".yml", 1, False, mode), rid))
     conv_failed = 0
     for name, fn, abbr, data in _variants(ctx):
         p = os.path.join(wd, name.replace("~", "_v"))
@@ -391,7 +395,7 @@ def _crop_clause(ctx, env, rnd, fails, search):
 def _encodings_clause(ctx, env, rnd, search):
     """one abstract project in every encoding of rotation / soil / measurements / dates"""
     lines, groups = [], []
-    n = 30 if ctx.thorough or search else 6
+    n = 40 if ctx.thorough or search else 6
     for k in range(n):
         allc = [(("SM", ""), ("SOY", "000")), (("WW", ""), ("SM", "")), (("ZR", "chrnew"), ("SW", "")), (("K", ""), ("WG", "")), (("SOY", "ii"), ("OA", ""))]
         crops = allc[k] if k < len(allc) else rnd.choice(allc)
@@ -427,7 +431,7 @@ def _weather_clause(ctx, env, rnd, search):
     lines, groups = [], []
     src = os.path.join(env.ex, "weather", "historical", "109_120.csv")
     D = datetime.date
-    n = 8 if ctx.thorough or search else 2
+    n = 10 if ctx.thorough or search else 2
     for k in range(n):
         y0 = rnd.choice([1980, 1984, 1990, 1995])
         ser = F.read_weather_csv(src, y0, y0 + 4)
@@ -437,15 +441,17 @@ def _weather_clause(ctx, env, rnd, search):
             return [(d, dict(r, **kv) if d == date else r) for d, r in ser]
         ymid = y0 + 1 + rnd.randrange(2)
         variants = [("plain", ser, (0, 1, 2), None),
+                    ("heights", ser, (0, 1), None),          # third header line: station height, wind height 10 m
                     ("sentinel-interior", mod(D(ymid, rnd.randrange(2, 12), rnd.randrange(2, 28)), tavg="-99.9"), (0, 1), None),
                     ("calm-31dec", mod(D(ymid, 12, 31), wind="0.1"), (0, 1, 2), None),
                     ("sentinel-31dec", mod(D(ymid, 12, 31), tavg="-99.9"), (0, 1), "weather-layout0-sentinel-at-year-edge"),
                     ("sentinel-1jan", mod(D(ymid + 1, 1, 1), tavg="-99.9"), (0, 1), "weather-layout0-sentinel-at-year-edge")]
         for vname, s, layouts, special in variants:
             idx = {}
+            hts = (str(rnd.choice([5, 55, 120])), rnd.choice(["10", "10", "3.5"])) if vname == "heights" else None
             for lay in layouts:
                 folder = "w%d_%s_%d" % (k, vname.replace("-", ""), lay)
-                keys = F.render_weather(env.ex, folder, lay, "X", s)
+                keys = F.render_weather(env.ex, folder, lay, "X", s, heights=hts)
                 keys["WeatherFolder"] = '"%s"' % folder
                 nm = "wx%d_%s_%d" % (k, vname.replace("-", ""), lay)
                 F.write_project(env, nm, P, cfg=keys)
